@@ -96,7 +96,7 @@ class C16(Prop):
         "restore_nesting_bounded", "nesting_test_only_refuses", "saveObject_leaves_no_tmp", "saveObject_error_touches_nothing",
         "saveObject_error_iff_too_deep", "tmpName_eq", "tmpName_never_a_save_file", "mapping_insert_spec",
         "restore_mapping_all_found", "hash_sites_as_modelled", "error_messages_as_in_source",
-        "save_structure_bytes_as_in_source")]
+        "save_structure_bytes_as_in_source", "save_atomic_partial")]
     witness_theorems = ["NV.C16.Witness." + t for t in (
         "float_keys_collapse", "roundtripFloatKeys_Full_false", "cr_round_trips", "stray_byte_in_array_ok",
         "inf_is_written_as_number", "same_name_saved", "same_name_variables", "old_mask_loses_the_key")]
@@ -736,6 +736,30 @@ class C16(Prop):
             "set %s i1 i2 i3 %s" % (vtxt(self.nest(25, "mix")), vtxt(self.nest(12, "mv"))), "so 0", "set i0 i0 i0 i0 i0", "ro 0"])
         mk("too-deep-object", ["set i1 %s i2 i3 i4" % vtxt(self.nest(26, "m")), "so 0", "ro 0",
                                "set i1 %s i2 i3 i4" % vtxt(self.nest(25, "m")), "so 0", "ro 0"])
+        # the too deep value in EVERY variable position (first, middle, behind the statics, last), with and without an
+        # older save file; in a static variable it is no obstacle; the 24-variable object; a generated program tree
+        D26, D25 = vtxt(self.nest(26)), vtxt(self.nest(25, "mix"))
+        pos = []
+        for k in range(5):
+            a = ["i%d" % (k + 1)] * 5
+            a[k] = D26
+            pos += ["set " + " ".join(a), "so %d" % (k % 2), "ro 0"]
+            if k == 1:
+                pos += ["set i1 i2 i3 i4 i5", "so 0"]         # from here on there is an older save file
+        mk("too-deep-every-position", pos + ["set i1 i2 i3 %s i4" % D25, "so 1", "ro 0"])
+        for k in (0, 11, 22, 23):
+            vals = [("i", j) for j in range(24)]
+            vals[k] = self.nest(26, "mix")
+            mk("too-deep-many-%d" % k, ["use many", "setm " + vtxt(("a", vals)), "so 0", "ro 0", "setm " + vtxt(("a", [("i", 5)] * 24)),
+                                         "so 1", "setm " + vtxt(("a", vals)), "so 1", "ro 1"])
+        T0 = {"t0": ([], [("n", "a"), ("s", "b"), ("n", "c")]), "t1": ([("s", "t0")], [("n", "d")]),
+              "t2": ([("n", "t0"), ("n", "t1")], [("n", "e"), ("s", "f"), ("n", "g")])}
+        T0["t2"] = ([("n", "t1")], T0["t2"][1])
+        nslots = len(self.layout(T0, "t2"))
+        for k in range(nslots):
+            vals = [("i", j + 1) for j in range(nslots)]
+            vals[k] = self.nest(26)
+            mk("too-deep-tree-slot-%d" % k, self.prog_lines(T0) + ["useg t2", "setm " + vtxt(("a", vals)), "so 1", "ro 0"])
         T = {"p0": ([], [("n", "a"), ("s", "b")]), "p1": ([("n", "p0")], [("n", "c")]),
              "p2": ([("s", "p1")], [("n", "d"), ("p", "e")])}
         B.append(E.Case("b-static-inherit-of-inheriting-program", self.tree_case_lines(E.Rng(21), T, "p2", ["so", "ro", "so", "ro", "cp"]),
@@ -862,6 +886,8 @@ class C16(Prop):
             vals = [self.gen_value(rng, 0, 3) for _ in range(5)]
             if rng.chance(1, 3):
                 vals[rng.below(5)] = ("i", 0)
+            if rng.chance(1, 6):
+                vals[rng.below(5)] = self.nest(rng.range(25, 27), rng.choice(["a", "m", "mix", "c", "mv"]))
             lines.append("set " + " ".join(vtxt(v) for v in vals))
             lines.append("so %d" % rng.below(2))
             lines.append("set " + " ".join(vtxt(self.gen_value(rng, 0, 2)) for _ in range(5)))
